@@ -33,4 +33,21 @@ def lookup():
 
 case("C15.R2/HierarchyElement.get_comparam/generic-before-specific", lookup,
      expect=lambda r: r[2] is None and r[1] == r[0])
+
+def subvalue_default():
+    # a complex comparam instance whose sub-value is given as an empty <SIMPLE-VALUE/>
+    from xml.etree import ElementTree as ET
+    from odxtools.complexcomparam import create_complex_value_from_et
+    cp = [c for c in ecu.comparam_refs if c.short_name == "CP_UniqueRespIdTable"][0]
+    names = [sp.short_name for sp in cp.spec.subparams]
+    idx = names.index("CP_CanPhysReqId")
+    default = cp.spec.subparams[idx].physical_default_value
+    xml = "<COMPLEX-VALUE>" + "".join("<SIMPLE-VALUE/>" for _ in names) + "</COMPLEX-VALUE>"
+    inst = copy(cp)
+    inst.value = create_complex_value_from_et(ET.fromstring(xml))
+    return default, inst.get_subvalue("CP_CanPhysReqId")
+
+
+case("C15.R3/ComparamInstance.get_subvalue/subvalue-default-unreachable", subvalue_default,
+     expect=lambda r: r[1] == "" and r[0] not in (None, ""))
 finish()
